@@ -73,9 +73,10 @@ Definition c18_oracle_gen (seed_only : bool) (c : trncase) : bool :=
   | Ok rs => forallb (view_ok seed_only c rs) (tn_views c)
   | _ => false
   end.
-Definition c18_oracle := c18_oracle_gen false.
+Definition P18 : str := [99;49;56;95].
+Definition c18_oracle (c : trncase) : bool := c18_oracle_gen false c && flags_ok P18 c.
 (** known finding K6: the only failure is a 0,0,0 user row whose tuple coincides with another row's but whose id differs *)
-Definition c18_known (c : trncase) : bool := negb (c18_oracle_gen false c) && c18_oracle_gen true c.
+Definition c18_known (c : trncase) : bool := negb (c18_oracle_gen false c) && c18_oracle_gen true c && flags_ok P18 c.
 
 Definition c18_nontrivial (c : trncase) : bool :=
   existsb (fun v : wview => let '(words, left_rows, _) := v in
